@@ -33,6 +33,8 @@ type Event struct {
 	Tag   string        `json:"tag"`
 	N     int           `json:"n"`
 	By    map[string]int `json:"by"`
+	User  *string        `json:"user"` // proc.recv: the user the tunnel acts for at that packet
+	NReg  *int           `json:"nreg"` // reg.end / unreg.end: size of the registry after the change
 }
 
 func (e Event) Int(i int) int {
